@@ -468,7 +468,7 @@ static void make_opts(int thorough) {
 static const char * const FILEN[4] = { "alpha.c", "beta.cc", "gamma.h", "delta.cilk" };
 typedef struct {
   const prog_t * p; const sched_t * s; const oracle_t * o;
-  timing_t tm; int imp, W, oi, nf, chk;
+  timing_t tm; int tmi, imp, W, oi, nf, chk;
   ropt_t opt;
   char key[220];               /* P=.. T=.. B=.. W=.. S=.. O=.. F=..  (readable, and parsed back by --case) */
   int verbose;
@@ -586,6 +586,8 @@ static int log_read(char * b, size_t n) {
 }
 
 static void component_case(void);                 /* supplied by the component */
+static int component_skip(int nf, int oi);        /* supplied: 1 = this (file-name count, option index) is not part of the enumeration */
+static const char * const AUX_NAMES[4];           /* supplied: what SLOT->aux[0..3] count (NULL = unused) */
 static const char * COMPONENT, * PROPERTY;
 
 static void case_key(void) {
@@ -659,7 +661,7 @@ static void enumerate_program(int pi, const pos_t * rs) {
 	    SLOT->engine_error = 1; fprintf(stderr, "engine error: P=%s W=%d\n", p.str, W); return;
 	  }
 	  SLOT->schedules++;
-	  CASE.p = &p; CASE.s = &s; CASE.o = &o; CASE.tm = TIMINGS[tmi]; CASE.imp = imp; CASE.W = W;
+	  CASE.p = &p; CASE.s = &s; CASE.o = &o; CASE.tm = TIMINGS[tmi]; CASE.tmi = tmi; CASE.imp = imp; CASE.W = W;
 	  SLOT->pos.p = pi; SLOT->pos.tmi = tmi; SLOT->pos.imp = imp; SLOT->pos.W = W; SLOT->pos.nch = s.nch; memcpy(SLOT->pos.ch, s.ch, sizeof s.ch);
 	  int nf0 = resuming ? rs->nf : 1, oi0 = resuming ? rs->oi + 1 : 0;
 	  if (resuming && rs->have_base) { HAVE_BASE = 1; memcpy(BASE, rs->base, sizeof BASE); } else HAVE_BASE = 0;
@@ -668,6 +670,7 @@ static void enumerate_program(int pi, const pos_t * rs) {
 	  for (int nf = nf0; nf <= NFMAX && !count_only; nf++, oi0 = 0) {
 	    if (oi0 == 0) HAVE_BASE = 0;
 	    for (int oi = oi0; oi < NOPTS; oi++) {
+	      if (component_skip(nf, oi)) continue;
 	      CASE.nf = nf; CASE.oi = oi; CASE.opt = OPTS[oi];
 	      SLOT->pos.nf = nf; SLOT->pos.oi = oi;
 	      long c0 = N_CALLS;
@@ -733,7 +736,8 @@ static int replay_one(const char * key) {
     case_t save = CASE; CASE.opt = (ropt_t){ 0, 0, 0, 0, 100000 }; CASE.oi = 0; CASE.verbose = 0; run_case(); CASE = save;
   }
   run_case();
-  printf("%d class(es) of disagreement\n", sl.ncls);
+  printf("%d class(es) of disagreement (including those of the uncontracted base run)\n", sl.ncls);
+  for (int i = 0; i < sl.ncls; i++) printf("  %s x%ld   e.g. %s : %s\n", sl.cls[i].cls, sl.cls[i].count, sl.cls[i].best[0].key, sl.cls[i].best[0].msg);
   return sl.ncls ? 1 : 0;
 }
 
@@ -807,10 +811,11 @@ static int dag_main(int argc, char ** argv, const char * property, const char * 
     pids[k] = fork(); if (pids[k] == 0) worker_main(k, &rs); if (pids[k] < 0) { SQ.engine_error = 1; live--; }
   }
   /* merge */
-  static cls_t all[MAXCLS * 2]; int nall = 0; long traps = 0, schedules = 0, groups = 0;
+  static cls_t all[MAXCLS * 2]; int nall = 0; long traps = 0, schedules = 0, groups = 0, aux[4] = { 0 };
   for (int k = 0; k < NPROC + 1; k++) {
     cls_t * src; int n;
     if (k < NPROC) { slot_t * sl = &SLOTS[k]; SQ.states += sl->states; SQ.transitions += sl->transitions; SQ.evaluations += sl->evaluations; traps += sl->traps; schedules += sl->schedules; groups += sl->groups;
+      for (int a = 0; a < 4; a++) aux[a] += sl->aux[a];
       if (sl->engine_error || sl->cls_overflow) SQ.engine_error = 1; src = sl->cls; n = sl->ncls;
       for (int i = 0; i < sl->nsample && k < 3; i++) sq_sample("%s", sl->sample[i]);
     } else { src = crash_cls; n = ncrash_cls; }
@@ -842,7 +847,9 @@ static int dag_main(int argc, char ** argv, const char * property, const char * 
   sq_detail("%s; %ld programs (<= %d tasks, <= %d sections in all, nesting <= 2, <= 2 creates per section, <= 1 other per task) x %d timing(s) (+ implicit section opening with the first) x W=1..%d: %ld schedules (<= %d steals/migrations), x %d option settings",
 	    what, NPROGS, GB.maxt, GB.maxsec, NTIMINGS, MAXW, schedules, MAXSTEAL, NOPTS);
   if (NFMAX > 1) sq_detail(" x 1..%d file names", NFMAX);
-  sq_detail(" = %ld cases on %d processes; %ld trapped aborts, %ld process crashes; disagreement classes:", SQ.states, NPROC, traps, crashes);
+  sq_detail(" = %ld cases on %d processes;", SQ.states, NPROC);
+  for (int a = 0; a < 4; a++) if (AUX_NAMES[a]) sq_detail(" %ld %s,", aux[a], AUX_NAMES[a]);
+  sq_detail(" %ld trapped aborts, %ld process crashes; disagreement classes:", traps, crashes);
   for (int j = 0; j < nall; j++) sq_detail(" [%s x%ld]", all[j].cls, all[j].count);
   if (!nall) sq_detail(" none");
   return sq_end(stats);
